@@ -154,7 +154,7 @@ def cases(draw):
     img['accesses'] = acc
     if d.pct() < 25:
         # one Memory object re-used for 2-4 runs: (ring length, IO call at which the callback raises or 0, exception kind)
-        img['reuse'] = [[d.choice([0, 0, 1, 3, 10]), d.choice([0, 0, 1, 2, d.int(1, 6)]), d.choice(['kbd', 'foreign'])] for _ in range(d.int(2, 4))]
+        img['reuse'] = [[d.choice([0, 0, 1, 3, 10]), d.choice([0, 0, 1, 2, d.int(1, 6)]), d.choice(['kbd', 'foreign', 'badbool'])] for _ in range(d.int(2, 4))]
     return img
 
 
@@ -192,6 +192,8 @@ def run_case(case):
         return Violation('c11:sanitizer:' + kind, {'returncode': reply['returncode'], 'stderr_tail': tail[-2500:]}, cl)
     if not reply.get('ok'):
         return Violation('c11:worker-harness-exception', reply, cl)
+    if isinstance(reply.get('reuse'), dict) and reply['reuse'].get('refcount_delta'):
+        return Violation('c11:python-object-ownership:refcount-changed', reply['reuse'], cl)
     modes = set()
     ops = 0
     for o in reply['outcomes']:
